@@ -7,7 +7,8 @@ import pyterm
 import prettyprinter as P
 
 CFG = "INIT Init\nNEXT Next\nINVARIANT Report\nCHECK_DEADLOCK FALSE\n"
-WORDS = ['w', '#', "'", '"', '(', ']', ',', 'a,b', '\\', 'word', '{x}', '#!', "it's"]
+WORDS = ['w', '#', "'", '"', '(', ']', ',', 'a,b', '\\', 'word', '{x}', '#!', "it's", 'caf\xe9', '\u4e2d\u6587',
+         'averyveryveryveryveryveryveryveryveryverylongwordthatcannotbebrokenanywhere', '%s', '{0}', '...and', 'more', 'elements']
 SEPS = [' ', '  ', '\t', '\n', '\n\n', ' \n ']
 
 
